@@ -1029,7 +1029,9 @@ func (cg *concGen) concKnobs(gc bool) {
 	if gc {
 		// pure interference: nothing the workload touches is collectable
 		k.GCFreqMs = int64(g.r.pick(1, 5, 50, 1000))
-		k.GCGraceMs = int64(g.r.pick(0, 3600000))
+		// (without a grace period a manifest blob is collectable between the store calls of its own push: only the
+		// wait for requests in flight protects it)
+		k.GCGraceMs = int64(g.r.pick(0, 3600000, -1))
 		k.Untagged = g.r.pick(-1, 0)
 		k.RefDangling, k.RefWithSubj = 0, g.r.pick(-1, 0, 1)
 	}
